@@ -67,13 +67,14 @@ ClauseCalls(f) ==
     \cup (IF kind = "update" THEN {[m |-> "set", col |-> "b", val |-> f], [m |-> "setf", f |-> f, val |-> Num("5")]} ELSE {})
     \cup (IF kind = "delete" THEN {[m |-> "orderby", terms |-> <<f>>, dir |-> ""]} ELSE {})
     \cup (IF kind \in {"update", "delete", "insertvalues"} THEN {[m |-> "returning", terms |-> <<f>>]} ELSE {})
-    \cup (IF kind = "insertvalues" THEN {[m |-> "columnsf", f |-> f], [m |-> "where", crit |-> Cmp(f, Num("1"))]} ELSE {})
+    \cup (IF kind = "insertvalues" THEN {[m |-> "columnsf", f |-> f], [m |-> "where", crit |-> Cmp(f, Num("1"))],
+                                         [m |-> "do_update", col |-> "b", val |-> f]} ELSE {})
 NameCalls == IF kind = "insertvalues" THEN {[m |-> "columns", names |-> <<"a", "b">>], [m |-> "on_conflict", names |-> <<"a">>], [m |-> "do_nothing"]}
              ELSE IF kind = "insertselect" THEN {[m |-> "columns", names |-> <<"a">>]} ELSE {}
 Clause == /\ stage >= 3 /\ stage < 3 + MaxClauses
           /\ \/ \E s \in scope \cup {"T5"}, col \in {"a", "b"} : \E c \in ClauseCalls(Fld(s, col)) :
                     /\ (s = "T5" /\ "T5" \notin scope => c.m = "where")       \* a foreign table only in WHERE
-                    /\ (c.m = "returning" => s \in scope)
+                    /\ (c.m \in {"returning", "do_update"} => s \in scope)
                     /\ (c.m \in {"setf", "columnsf"} => s = hist[1].src)                \* name positions take columns of the statement's own table
                     /\ Do(c)
              \/ \E c \in NameCalls : (\A k \in DOMAIN hist : hist[k] # c) /\ Do(c)
